@@ -27,7 +27,7 @@ def run(tier):
     stats = {}
     programs = corpus(d, tier)
     builds = [0, 31] if tier == "quick" else [0, 8, 23, 31]
-    recs = pc.run_programs(d, "progs", programs, builds)
+    recs = pc.run_programs(d, "progs", programs, builds, ts_syntax=True)
     fails = pc.judge_obs(PID, "ObsC03.cfg", recs, "c03", "repository + generated programs", stats, d)
     cen = pc.census(recs)
     ends = {}
@@ -62,5 +62,5 @@ def replay(path):
     p = case["program"]
     p["with_std"] = case.get("with_std", True)
     d = outdir(PID)
-    recs = pc.run_programs(d, "replay", [p], [int(b.split(":")[1]) for b in case.get("builds", ["opt:0", "opt:31"])], jobs=1)
+    recs = pc.run_programs(d, "replay", [p], [int(b.split(":")[1]) for b in case.get("builds", ["opt:0", "opt:31"])], jobs=1, ts_syntax=True)
     return 1 if pc.judge_obs(PID, "ObsC03.cfg", recs, "replay", "replay", {}, d) else 0
